@@ -276,7 +276,10 @@ def _run(case):
         b1 = hc.RigidBody.make_sphere(np.array(case["c1"]), case["r"], 1)
         hit, w12, w21 = hc.contact_forces(b1, b2)
         pairs = sorted(zip([int(i) for i in cs.intersecting_tetrahedra1], [int(i) for i in cs.intersecting_tetrahedra2]))
-        return _ser({"hit": hit, "w12": w12, "w21": w21, "npoly": len(cs.contact_polygons), "pairs": pairs})
+        order = np.lexsort((np.asarray(cs.intersecting_tetrahedra2), np.asarray(cs.intersecting_tetrahedra1)))
+        nverts = [int(len(cs.contact_polygons[i])) for i in order]
+        return _ser({"hit": hit, "w12": w12, "w21": w21, "npoly": len(cs.contact_polygons), "pairs": pairs,
+                     "nverts": nverts})
     if k == "meshhist":
         c = scenes.build(case["spec"])
         return _ser([float(np.dot(d, c.support_function(np.ascontiguousarray(d)))) for d in case["dirs"]])
@@ -359,6 +362,10 @@ def compare(case, a, b):
             same_pts = all(abs(x - y) <= 1e-9 * max(1.0, abs(x), abs(y)) for x, y in zip(oa[1] + oa[2], ob[1] + ob[2]))
             if same_pts or (ra <= 1e-6 * max(1.0, da) and rb <= 1e-6 * max(1.0, db)):
                 return None
+    if k == "hydro" and isinstance(oa, dict) and isinstance(ob, dict):
+        # the per-polygon vertex counts are diagnostic (used by classify); the verdict is on flag, pairs and wrenches
+        oa = {kk: vv for kk, vv in oa.items() if kk != "nverts"}
+        ob = {kk: vv for kk, vv in ob.items() if kk != "nverts"}
     fa, fb = _flat(oa, []), _flat(ob, [])
     if len(fa) != len(fb):
         return "output shapes differ: %d vs %d values" % (len(fa), len(fb))
@@ -458,7 +465,22 @@ def differential(ctx, cases, tag):
                  finding=classify(case, a, b, msg), engine="jit")
 
 
+F_HYDRO_DROP = "F-c20-hydro-vertex-drop"
+
+
 def classify(case, a, b, msg):
+    """attach a known-finding id only to the exact class it describes"""
+    if case["kind"] == "hydro" and a.get("ok") and b.get("ok"):
+        oa, ob = a["out"], b["out"]
+        # same intersecting pairs, but some contact polygon has another number of vertices in the two engines (a vertex
+        # on three boundary lines is kept or dropped by a comparison that is decided by the last bits), and the wrenches
+        # still agree within the 5 % that property C16 grants
+        if oa.get("pairs") == ob.get("pairs") and oa.get("nverts") and ob.get("nverts") \
+                and len(oa["nverts"]) == len(ob["nverts"]) and oa["nverts"] != ob["nverts"]:
+            wa, wb = np.array(oa["w12"], dtype=float), np.array(ob["w12"], dtype=float)
+            nf = max(float(np.linalg.norm(wa[:3])), float(np.linalg.norm(wb[:3])))
+            if float(np.linalg.norm(wa[:3] - wb[:3])) <= 0.05 * nf:
+                return F_HYDRO_DROP
     return None
 
 
